@@ -68,6 +68,19 @@ def generate(rng, tier):
                 flat["fresh"] = fr
                 nested["fresh"] = copy.deepcopy(fr)
         out.append({"flat": flat, "nested": nested})
+    # a leaf whose own clean/cease/abort/exit context raises (outside the Coq model: decided by the pair oracle alone):
+    # grouping must not change which doers are exited nor in which order
+    for flat in sc.gen_hookraise(rng, 60 * n, nest_depths=(0,)):
+        flat["mode"] = "do"
+        if c03.asap_then_positive(flat, only_nested=False):
+            continue
+        # C04 quantifies over runs to completion or to a limit: keep only contexts that raise during the forced
+        # exit at the limit (a clean/abort/natural-exit context that raises stops the run by an exception in mid
+        # run, where a group legitimately closes its own members first)
+        hd = next(d for d in flat["defs"].values() if d.get("hookraise"))
+        if not (flat["limit"] and hd["hookraise"] in ("cease", "exit")):
+            continue
+        out.append({"flat": flat, "nested": group(rng, flat, depth=rng.choice([1, 2, 3]))})
     return out
 
 
@@ -89,7 +102,8 @@ def oracle(case, obs):
         why = sc.clock_oracle(o)
         if why:
             return why
-    if a["raised"] != "none" or b["raised"] != "none":
+    hooky = sc.outside_model(case["flat"])
+    if (a["raised"] != "none" or b["raised"] != "none") and not (hooky and a["raised"] == b["raised"] and not a["raised"].startswith("escape")):
         return f"run raised: flat {a['raised']}, nested {b['raised']}"
     if a["events"] != b["events"]:
         for n, (x, y) in enumerate(zip(a["events"], b["events"])):
@@ -151,6 +165,8 @@ def asap_pos_leaves(prog):
 
 
 def to_coq(case, obs):
+    if sc.outside_model(case["flat"]) or sc.outside_model(case["nested"]):
+        return None
     return f"({sc.to_coq(case['flat'], obs['flat'])}, {sc.to_coq(case['nested'], obs['nested'])})"
 
 
